@@ -253,7 +253,7 @@ impl HandleRequest for EMAppend {
             .map(|(event_id, timestamp, stream_id)| {
                 let version = stream_current_version.get_mut(&stream_id).unwrap();
                 let stream_version = *version;
-                *version -= 1;
+                *version = version.saturating_sub(1);
                 EventInfo {
                     event_id,
                     stream_id,
